@@ -1,6 +1,7 @@
 package checks
 
 import (
+	"bytes"
 	"context"
 	"fmt"
 	"github.com/jackc/pgx/v5/pgtype"
@@ -338,6 +339,45 @@ func (ch c09) Run(c *core.Ctx) {
 		}
 		if i%12 == 5 {
 			ch.mixed(c, env, core.NewRng(c.Seed, "C09m", c.Batch, i), i)
+		}
+		if i%10 == 7 && limit == 0 && !st.ScanRow {
+			// the same table on two fresh connections, the second with a peer that reads slowly: one of
+			// the transport Writes of the reply, and the one or two after it, take half of their bytes and
+			// report a timeout. Whether the server gives up or resumes, what has arrived is the head of what
+			// arrives undisturbed - rows included
+			sess2 := &hs.Sess{Progs: map[string]*hs.Prog{q: {Stmts: []*hs.Stmt{st}}}}
+			if p := sess.Progs["other-table"]; p != nil {
+				sess2.Progs["other-table"] = p
+			}
+			var outs [2][]byte
+			writes := 0
+			for v := 0; v < 2; v++ {
+				c2 := hs.NewClient(env.Dial(sess2))
+				if err := c2.StartupOK("u"); err != nil {
+					c.Violate("startup", "startup failed", err.Error(), nil)
+					return
+				}
+				w0 := c2.C.Stats().Writes
+				if v == 1 {
+					c2.C.InterruptWrites(1+rng.Intn(writes), 1+rng.Intn(2))
+				}
+				outs[v], _ = c2.Step(in)
+				writes = max(1, c2.C.Stats().Writes-w0)
+				if hangCheck(c, c2, nil) {
+					return
+				}
+				c2.C.Close()
+			}
+			c.Count("tables_sent_to_a_slow_reader", 1)
+			if !bytes.HasPrefix(outs[0], outs[1]) {
+				d := 0
+				for d < len(outs[0]) && d < len(outs[1]) && outs[0][d] == outs[1][d] {
+					d++
+				}
+				c.Violate("interrupted", "after interrupted writes the client holds bytes the undisturbed reply does not start with", fmt.Sprintf("%s: the replies differ at byte %d of %d / %d; undisturbed %s, interrupted %s", t.sig(), d, len(outs[0]), len(outs[1]), hexs(outs[0][d:min(len(outs[0]), d+40)]), hexs(outs[1][d:min(len(outs[1]), d+40)])), map[string]any{"table": t.sig()})
+			} else if len(outs[1]) < len(outs[0]) {
+				c.Count("replies_cut_short_by_the_slow_reader", 1)
+			}
 		}
 	}
 	if cl != nil {
